@@ -196,6 +196,8 @@ class Folder(object):
                 return base.__name__
             if isinstance(base, NTClass) and e.attr == "__name__":
                 return base.name
+            if isinstance(base, FnVal) and e.attr == "__name__":
+                return base.fi.name
             return U
         if isinstance(e, ast.Subscript):
             base = self._e(e.value, env, at)
